@@ -4,15 +4,15 @@ PROP = {
     "bin": "c15",
     "coq_targets": ["theories/Cfg/C15Check"],
     "n": {"quick": 600, "thorough": 12000},
-    "theorems": ["cfg_inv_preserved", "s_run_inv", "sinv_cfg_inv", "blockify_reachable", "merge_lang", "merge_step_lang", "append_struct", "append_runs_first_then_second", "insert_struct", "rho_fresh_injective", "graph_inv_preserved", "adjacency_agrees"],
+    "theorems": ["cfg_inv_preserved", "s_run_inv", "sinv_cfg_inv", "blockify_reachable", "merge_lang", "merge_step_lang", "append_struct", "append_runs_first_then_second", "insert_struct", "rho_fresh_injective", "graph_inv_preserved", "adjacency_agrees", "history_refines", "e_run_refines", "fourmap_cfg_inv", "fourmap_merge_lang"],
     "rule": "one history per case from one xoshiro256** stream per (seed,index): 1-3 graphs from ControlFlowGraph::new(), 1-50 operations "
             "(new_block, un/conditional_edge incl. self-loops and duplicate guards, set_entry/exit, Block pushes, remove_instruction, set_address, "
             "merge, append/insert of any graph of the case, blockify), block indices mostly existing, 1/12 arbitrary (failing operations); "
             "non-trivial = at least 5 operations with an effective merge or a successful append; distinct by hash of the case term",
     "trusted_base": [KERNEL, HARNESS_TB, "serde_json view of Block (next_instruction_index is private)"],
     "assumptions": [],
-    "partial": ["theorems 1-3 are stated on the static-view model Cfg/SOps.v; its refinement by the four-map model Cfg/CfgOps.v is differential (both run against the code in ck), not proved",
+    "partial": ["theorems 1-3 are proved on the static-view model Cfg/SOps.v and transported to the four-map model Cfg/CfgOps.v by the proved refinement (history_refines), for operation arguments >= 0 (usize)",
                 "lang_eq (C15Check) is an unverified decision procedure: search aid only"],
-    "level_text": "Unbounded Coq theorems [U]: (1) every graph reachable from ControlFlowGraph::new() by any sequence of the public operations, failing ones included, satisfies cfg_inv (static-view model); (2) merge terminates, never errs and preserves the language of (operation|guard) words from the entry on every invariant-satisfying graph, with the one-step lemma merge_step_lang; (3) append never fails under its documented precondition and is the disjoint union with an injectively re-indexed copy plus exactly one unconditional edge, its executable words are those of the first graph or a complete word of the first followed by a word of the second; (4) on the four-map model over Graph/Graph.v every history keeps C11's graph_inv and successor/predecessor queries agree with the edge set. Both models are tied to the Rust code differentially in the kernel after every operation of generated histories, and every observed state is checked against the invariant and (merge, append, insert) a language-equivalence oracle.",
+    "level_text": "Unbounded Coq theorems [U]: (1) every graph reachable from ControlFlowGraph::new() by any sequence of the public operations, failing ones included, satisfies cfg_inv (static-view model); (2) merge terminates, never errs and preserves the language of (operation|guard) words from the entry on every invariant-satisfying graph, with the one-step lemma merge_step_lang; (3) append never fails under its documented precondition and is the disjoint union with an injectively re-indexed copy plus exactly one unconditional edge, its executable words are those of the first graph or a complete word of the first followed by a word of the second; (4) on the four-map model over Graph/Graph.v every history keeps C11's graph_inv and successor/predecessor queries agree with the edge set; (5) the four-map model refines the static model operation by operation (history_refines), which transports (1) and (2). Both models are tied to the Rust code differentially in the kernel after every operation of generated histories, and every observed state is checked against the invariant and (merge, append, insert) a language-equivalence oracle.",
     "level_note": "Trusted: Coq kernel + vm_compute; the harness/pretty-printer; the model (Cfg/CfgOps.v over Graph/Graph.v) is hand-written and tied to the code differentially, not by translation.",
 }
